@@ -88,8 +88,11 @@ def run_concrete(o: Obligation, assignment, seed=0):
     from . import core, harness
     E = harness.Env("conc", assignment=assignment, seed=seed)
     E.escaped = None
+    import contextlib
+    import io
     try:
-        o.body(E, **o.params)
+        with contextlib.redirect_stdout(io.StringIO()):
+            o.body(E, **o.params)
     except core.Cut:
         pass
     except core.Abort:
